@@ -98,6 +98,16 @@ func (e *specEnv) instTerm(x Expr, at []string, depth int) string {
 			return "(and " + strings.Join(parts, " ") + ")"
 		}
 	}
+	if n, ok := x.(*EQuant); ok && !n.Forall && !n.Sum && n.Lo != nil && depth < 3 && e.u.collectW {
+		lo, hi := e.eval(n.Lo, tInt), e.eval(n.Hi, tInt)
+		if !(lo.lit != nil && hi.lit != nil) {
+			u := e.u
+			w := u.declConst("wit_"+n.Var, u.mode.idxSort())
+			u.witnesses = append(u.witnesses, w, e.term(hi, tInt))
+			inner := e.with(n.Var, Val{t: w, typ: tInt})
+			return "(and " + e.rangeTerm(n, w) + " " + inner.term(inner.eval(n.Body, tBool), tBool) + ")"
+		}
+	}
 	return e.term(e.eval(x, tBool), tBool)
 }
 
@@ -118,11 +128,30 @@ func (e *specEnv) goalSkolem(x Expr, sk *[]string) string {
 			if lo.lit != nil && hi.lit != nil {
 				break // constant bounds: expanded by eval
 			}
-			k := u.declConst("sk_"+n.Var, u.mode.idxSort())
+			var k string
+			if e.u.skReuse != nil && e.u.skPos < len(e.u.skReuse) {
+				k = e.u.skReuse[e.u.skPos]
+				e.u.skPos++
+			} else {
+				k = u.declConst("sk_"+n.Var, u.mode.idxSort())
+			}
 			*sk = append(*sk, k)
 			inner := e.with(n.Var, Val{t: k, typ: tInt})
 			return "(=> " + e.rangeTerm(n, k) + " " + inner.goalSkolem(n.Body, sk) + ")"
 		}
+	}
+	if n, ok := x.(*EQuant); ok && !n.Forall && !n.Sum && n.Lo != nil && len(e.u.witnesses) > 0 {
+		parts := []string{e.term(e.eval(x, tBool), tBool)}
+		seen := map[string]bool{}
+		for _, w := range e.u.witnesses {
+			if seen[w] {
+				continue
+			}
+			seen[w] = true
+			inner := e.with(n.Var, Val{t: w, typ: tInt})
+			parts = append(parts, "(and "+e.rangeTerm(n, w)+" "+inner.term(inner.eval(n.Body, tBool), tBool)+")")
+		}
+		return "(or " + strings.Join(parts, " ") + ")"
 	}
 	return e.term(e.eval(x, tBool), tBool)
 }
@@ -154,7 +183,18 @@ func (e *specEnv) goal(x Expr) (g string, extra []string, err error) {
 			at = append(at, "("+gs+" "+k+")")
 		}
 	}
+	e.u.witnesses = nil
+	e.u.collectW = true
 	extra = e.u.instancesAt(at)
+	e.u.collectW = false
+	if len(e.u.witnesses) > 0 {
+		// second pass: goal existentials get the hypothesis witnesses as candidate disjuncts
+		e.u.skReuse, e.u.skPos = sk, 0
+		var sk2 []string
+		g = e.goalSkolem(x, &sk2)
+		e.u.skReuse = nil
+		e.u.witnesses = nil
+	}
 	return g, extra, nil
 }
 
